@@ -32,7 +32,8 @@ type Case struct {
 	RespHeaders []origin.HV `json:"resp_headers"`
 	RespBodyLen int         `json:"resp_body_len"`
 	RespChunked bool        `json:"resp_chunked"`
-	Deliveries  int         `json:"deliveries"` // 1 = relayed only, 2 = second request too (from the store when storable)
+	Deliveries  int         `json:"deliveries"`  // 1 = relayed only, 2 = second request too (from the store when storable)
+	RangeFirst  bool        `json:"range_first"` // a Range GET of the same target is made between the deliveries (the raw origin ignores Range, so the proxy slices its stored copy)
 }
 
 func canon(k string) string { return textproto.CanonicalMIMEHeaderKey(k) }
@@ -121,6 +122,11 @@ func runCase(c Case, o *ev.Obs) *ev.Failure {
 		o.NonTrivial = (multi || hopNom || hasBody) && (c.Method != "GET" || c.Status != 200)
 
 		for d := 1; d <= c.Deliveries; d++ {
+			if d == 2 && c.RangeFirst && c.Method == "GET" {
+				// answered from the stored copy (a 206 slice) or relayed: either way it must leave the stored response alone
+				o.Class("range-request-between-deliveries")
+				env.Via(c.Transport, px.Req{Method: "GET", Host: org.Addr(), Target: c.Target, Headers: []px.H{{K: "Range", V: "bytes=0-0"}}, ReqID: "ranged"})
+			}
 			rid := fmt.Sprintf("d%d", d)
 			req := px.Req{Method: c.Method, Host: org.Addr(), Target: c.Target, Headers: c.ReqHeaders, Body: reqBody, Chunked: c.ReqChunked && c.ReqBodyLen > 0, ReqID: rid}
 			before := org.Len()
@@ -442,6 +448,7 @@ func drawCase(t *rapid.T) Case {
 	if rapid.IntRange(0, 3).Draw(t, "storable") == 0 {
 		// make sure the from-the-store delivery is well represented
 		c.Method, c.Status, c.Deliveries = "GET", 200, 2
+		c.RangeFirst = rapid.Bool().Draw(t, "range_first")
 		if rapid.IntRange(0, 9).Draw(t, "get_body") != 0 {
 			c.ReqBodyLen, c.ReqChunked = 0, false
 		}
